@@ -49,9 +49,37 @@ func varRoot(v ssa.Value) *ssa.Parameter {
 	return nil
 }
 
+// throughAlias: v reads a local variable (possibly captured) that is assigned exactly once — `children :=
+// root.children` — and so denotes the assigned value.
+func throughAlias(v ssa.Value) ssa.Value {
+	for depth := 0; depth < 3; depth++ {
+		u, ok := v.(*ssa.UnOp)
+		if !ok || u.Op != token.MUL {
+			return v
+		}
+		if _, isField := u.X.(*ssa.FieldAddr); isField {
+			return v
+		}
+		cell := resolveCell(u.X)
+		if cell == nil {
+			return v
+		}
+		if _, isPtr := cell.Type().Underlying().(*types.Pointer).Elem().Underlying().(*types.Struct); isPtr {
+			return v
+		}
+		stores := cellStores(cell)
+		if len(stores) != 1 {
+			return v
+		}
+		v = stores[0].Val
+	}
+	return v
+}
+
 // fieldLoadOfVar matches `R.<field>` (a load through FieldAddr) and returns
 // the parameter R denotes.
 func fieldLoadOfVar(v ssa.Value, typeName, field string) *ssa.Parameter {
+	v = throughAlias(v)
 	base, ok := loadOfField(v, typeName, field)
 	if !ok {
 		return nil
@@ -141,7 +169,7 @@ func ruleSortGate(w *World, r *Report, fn *ssa.Function, set map[*ssa.Function]b
 
 func checkLess(w *World, r *Report, call *ssa.CallCommon, sorted *ssa.Parameter, pos string, f *ssa.Function) {
 	const rule = "R-LESS"
-	mc, ok := call.Args[1].(*ssa.MakeClosure)
+	mc, ok := throughAlias(call.Args[1]).(*ssa.MakeClosure)
 	if !ok {
 		r.Fail(rule, pos, w.Name(f), "less argument", "not a closure literal")
 		return
